@@ -1,4 +1,4 @@
-use std::mem::MaybeUninit;
+use std::{marker::PhantomData, mem::MaybeUninit};
 
 #[cfg(feature = "verif-hooks")]
 pub mod verif;
@@ -7,6 +7,9 @@ pub mod verif;
 #[cfg_attr(feature = "verif-hooks", repr(C))]
 pub struct RecordMaybeUninit<const CAP: usize> {
     data: [MaybeUninit<u8>; CAP],
+    // The buffer by itself is neither `Send` nor `Sync`: only the generated record types know
+    // what it holds, they opt in according to their data.
+    _not_send_sync: PhantomData<*mut u8>,
     #[cfg(feature = "verif-hooks")]
     shadow: [verif::ShadowByte; CAP],
 }
@@ -16,6 +19,7 @@ impl<const CAP: usize> RecordMaybeUninit<CAP> {
     pub fn new() -> Self {
         Self {
             data: unsafe { std::mem::MaybeUninit::uninit().assume_init() },
+            _not_send_sync: PhantomData,
             #[cfg(feature = "verif-hooks")]
             shadow: unsafe { std::mem::zeroed() },
         }
